@@ -21,6 +21,18 @@ FILL_ORDERS = ["default", "identity", "reversed", "outward", "random"]
 BLANK = bytes(RD.blank())
 
 
+def firm(img):
+    """The image with the slack of the allocation-table sector (bytes 68..255 of it) masked out: no property says what
+    those bytes hold, the tool itself leaves $FF there on an empty disk and $00 after the first file."""
+    img = bytes(bytearray(img))
+    if len(img) < RD.FAT + 256:
+        return img
+    return img[:RD.FAT + 68] + b"\0" * 188 + img[RD.FAT + 256:]
+
+
+FIRM_BLANK = firm(BLANK)
+
+
 def fill_order(desc):
     kind = desc.get("kind", "default")
     if kind == "default":
@@ -250,7 +262,7 @@ class DiskProp(object):
                 if st["pristine"] and not st["model"] and st["img"] == BLANK:
                     # the very first container of a run is the tool's own empty disk (DiskFile() without a buffer)
                     st["cont"] = DiskFile(granule_fill_order=order)
-                    if bytes(bytearray(st["cont"].get_buffer())) != st["img"]:
+                    if firm(st["cont"].get_buffer()) != firm(st["img"]):
                         res.violate("NEW-DISK-NOT-BLANK", "a newly created disk is not freshly formatted", 0)
                 else:
                     st["cont"] = DiskFile(buffer=list(st["img"]), granule_fill_order=order)
@@ -323,7 +335,7 @@ class DiskProp(object):
                     # (all 68 granules and 72 slots free), whatever was done to other disks before
                     fresh = DiskFile(granule_fill_order=order)
                     img = bytes(bytearray(fresh.get_buffer()))
-                    if img != bytes(RD.blank()):
+                    if firm(img) != FIRM_BLANK:
                         k0 = next((i for i in range(min(len(img), RD.IMAGE_SIZE)) if img[i] != 0xFF), len(img))
                         res.violate("NEW-DISK-NOT-BLANK", "a newly created disk is not freshly formatted: %d bytes, first difference at offset %d; %d free granules" % (
                             len(img), k0, len(RD.free_granules(img)) if len(img) == RD.IMAGE_SIZE else -1), k)
@@ -348,8 +360,8 @@ class DiskProp(object):
                     _, err = w.call(queries)
                     if err is not None:
                         res.violate("LOOKUP-ERROR:" + type(err).__name__, "a read-only query raised %s: %s" % (type(err).__name__, str(err)[:100]), k)
-                    elif bytes(bytearray(cont.get_buffer())) != before_img:
-                        diff = next(i for i, (a, b) in enumerate(zip(before_img, bytes(bytearray(cont.get_buffer())))) if a != b)
+                    elif firm(cont.get_buffer()) != firm(before_img):
+                        diff = next(i for i, (a, b) in enumerate(zip(firm(before_img), firm(cont.get_buffer()))) if a != b)
                         res.violate("LOOKUP-MODIFIED-IMAGE", "a read-only query changed the image (first difference at offset %d)" % diff, k)
                     else:
                         res.stats["probe:queries_left_image_unchanged"] += 1
@@ -361,7 +373,7 @@ class DiskProp(object):
                         res.violate("LIST-ERROR:" + type(err).__name__, "list_files on the live container raised %s: %s" % (type(err).__name__, str(err)[:100]), k)
                     elif self.judge == "C07":
                         self.compare_listing(res, [from_coco(cf) for cf in listed], model_list(), k, "LIVE-")
-                    if bytes(bytearray(cont.get_buffer())) != st["img"]:
+                    if firm(cont.get_buffer()) != firm(st["img"]):
                         res.violate("LIST-MODIFIED-IMAGE", "listing changed the image bytes", k)
                     st["tool_ops"] += 1 if st["model"] else 0
                 elif kind == "cli_list":
